@@ -110,10 +110,12 @@ Definition dimg_eqb (a b : dicom_img) : bool :=
             attributes read from the file fromimage wrote,
             bytes toimage --unwrap wrote (None = it failed),
             image decoded from the PNG toimage wrote (None = not run / failed)) *)
-Definition check_case
-  (c : (N * N * N * N * list N)
-       * (str * N * option N * N * N * (N * N * N * N) * bool * bytes)
-       * option bytes * option (N * N * N * N * list N)) : bool :=
+Definition case_t : Type :=
+  (N * N * N * N * list N)
+  * (str * N * option N * N * N * (N * N * N * N) * bool * bytes)
+  * option bytes * option (N * N * N * N * list N).
+(* the harness prints every case as [(term : Image.case_t)], so that [None] and [[]] are typed *)
+Definition check_case (c : case_t) : bool :=
   let '(im, dd, unwrapped, decoded) := c in
   let '(w, h, ch, dp, ss) := im in
   let '(pi, spp, planar, cols, rows, bits, ob, px) := dd in
